@@ -415,7 +415,12 @@ impl<'lexer> Lexer<'lexer> {
         }
         Ok((TokenType::Numeric, TokenValue::Numeric(digits_before, digits_after)))
       }
-      [ch, _, _, _, _, _, _, _, _, _, _, _] if is_name_start_char(ch) => self.consume_name(),
+      [ch, _, _, _, _, _, _, _, _, _, _, _] if is_name_start_char(ch) => {
+        let result = self.consume_name();
+        // a type name is expected only in the first name after the request
+        self.type_name = false;
+        result
+      }
       [WS, WS, WS, WS, WS, WS, WS, WS, WS, WS, WS, WS] => Ok((TokenType::YyEof, TokenValue::YyEof)),
       _ => Ok((TokenType::YyUndef, TokenValue::YyUndef)),
     }
